@@ -23,7 +23,25 @@ def Productive (s : S) (a : Act) : Prop :=
 
 def exWait : List Act := [.spawn, .spawn, .load, .load, .cas, .cas, .load]
 
+/-- lazy initialisation of a pool of two: the first `openPoll` succeeds (poller 0, loop started), the second fails;
+the error path closes poller 0 (`eclose`), clears the manager (`eclear`); `Pick` goes on to the nil balancer -/
 def exOpenFail : List Act :=
+  [.spawn, .load, .cas, .run 0 false, .run 0 false, .run 0 false, .run 0 true, .run 0 false, .run 0 false, .cas2,
+   .balEnter 0]
+
+/-- the model with the failing-`openPoll` step of the code BEFORE the fix of F2 (regression witness only) -/
+def stepPreF2 (s : S) : Act → Option S
+  | .run i fail => runStepPreF2 s i fail
+  | a => step s a
+
+def runActsPreF2 (s : S) : List Act → Option S
+  | [] => some s
+  | a :: as => match stepPreF2 s a with
+    | none => none
+    | some s' => runActsPreF2 s' as
+
+/-- the same schedule on the pre-fix code: the old pool is empty, so the error path goes straight to `eclear` -/
+def exOpenFailPreF2 : List Act :=
   [.spawn, .load, .cas, .run 0 false, .run 0 false, .run 0 false, .run 0 true, .run 0 false, .cas2, .balEnter 0]
 
 def exZero : List Act := [.spawn, .load, .cas, .run 0 false, .cas2, .balEnter 0, .balSize 0]
